@@ -140,6 +140,8 @@ def correspond(ctx, corr, model_ok):
         corr.oracle_failures.extend(tcp_oracle(case, r))
         corr.count('real TransportTCP cut (%s, %s)' % (case[0], case[2]))
         corr.evaluations += 1
+    corr.oracle_failures.extend(pool_close_oracle())
+    corr.count('load-balancer pool closed with a member whose close() fails', 6)
     corr.oracle_failures.extend(immediate_close_oracle())
     corr.count('close() within two loop iterations of the creation of the endpoint', 6)
     from harness.props import c07
@@ -181,6 +183,8 @@ def replay(obj):
         return bool(tcp_oracle(c, run_tcp_cut(*c)))
     if 'immediate_case' in case:
         return bool(immediate_close_oracle())
+    if 'pool_case' in case:
+        return bool(pool_close_oracle())
     if 'late_case' in case:
         from harness.props import c07
         role, cause, kinds = case['late_case']
@@ -459,4 +463,93 @@ def immediate_close_oracle():
             if bad:
                 out.append({'what': 'close() %d iteration(s) after the endpoint was created: %s' % (gap, '; '.join(bad)),
                             'immediate_case': [role, gap]})
+    return out
+
+
+# ---------------------------------------------------------------------------------------------
+# the load-balancing wrapper (rsocket.load_balancer): closing the pool closes EVERY client — pending requests failed, on_close
+# once each, nothing written afterwards — also when the close() of one member raises (a member that never got connected)
+
+def run_pool_close(strategy, bad_index):
+    import asyncio
+    from datetime import timedelta
+    from harness import sim
+    from rsocket.rsocket_client import RSocketClient
+    from rsocket.request_handler import BaseRequestHandler
+    from rsocket.helpers import single_transport_provider
+    from rsocket.payload import Payload
+    from rsocket.load_balancer.load_balancer_rsocket import LoadBalancerRSocket
+    from rsocket.load_balancer.round_robin import LoadBalancerRoundRobin
+    from rsocket.load_balancer.random_client import LoadBalancerRandom
+    loop = sim.new_loop()
+    sim.patch_clock(loop)
+    T = sim.make_transport_class()
+    ts = [T(lenreq=True, name='t%d' % i) for i in range(3)]
+    closes = [0, 0, 0]
+
+    def handler(i):
+        class H(BaseRequestHandler):
+            async def on_close(self, rsocket, exception=None):
+                closes[i] += 1
+        return H
+    box = {}
+    futs = []
+    try:
+        def mk():
+            cs = [RSocketClient(single_transport_provider(ts[i]), handler_factory=handler(i), keep_alive_period=timedelta(seconds=1),
+                                max_lifetime_period=timedelta(seconds=5000)) for i in range(3)]
+            box['cs'] = cs
+            for i, c in enumerate(cs):
+                if i != bad_index:
+                    asyncio.create_task(c.connect())
+            st = (LoadBalancerRoundRobin if strategy == 'round-robin' else LoadBalancerRandom)(cs, auto_connect=False)
+            box['pool'] = LoadBalancerRSocket(st)
+        loop.run(mk)
+        loop.settle()
+        cs = box['cs']
+
+        class Boom:
+            async def __call__(self):
+                raise RuntimeError('this member never got a connection: close() fails')
+        if bad_index is not None:
+            cs[bad_index].close = Boom()
+        for i, c in enumerate(cs):
+            if i != bad_index:
+                loop.run(lambda c=c: futs.append((i, c.request_response(Payload(b'pending')))))
+        loop.settle()
+        res = {}
+
+        async def closing():
+            try:
+                await box['pool'].close()
+                res['close_raised'] = None
+            except Exception as e:
+                res['close_raised'] = type(e).__name__
+        loop.run(lambda: asyncio.create_task(closing()))
+        loop.settle()
+        sent = [len(t.sent) for t in ts]
+        loop.run_until(loop.time() + 5)
+        res.update(pending=[i for i, f in futs if not f.done()], on_close=list(closes),
+                   written_after=[len(t.sent) - s for t, s in zip(ts, sent)])
+        return res
+    finally:
+        loop.finish()
+
+
+def pool_close_oracle():
+    out = []
+    for strategy in ('round-robin', 'random'):
+        for bad in (None, 0, 1):
+            r = run_pool_close(strategy, bad)
+            good = [i for i in range(3) if i != bad]
+            bad_things = []
+            if r['pending']:
+                bad_things.append('requests of members %s left hanging' % r['pending'])
+            if [r['on_close'][i] for i in good] != [1] * len(good):
+                bad_things.append('on_close calls per member %s' % r['on_close'])
+            if any(r['written_after'][i] for i in good):
+                bad_things.append('frames written after the pool was closed: %s' % r['written_after'])
+            if bad_things:
+                out.append({'what': 'load balancer (%s) closed, member %s failing to close: %s' % (strategy, bad, '; '.join(bad_things)),
+                            'pool_case': [strategy, bad]})
     return out
